@@ -145,6 +145,22 @@ PROPS = {
         "level_text": "Lean theorems C06_step / C06_history / C06_terminates: for every byte string, every prior contents of the reused decoder structs and every sequence of frames, the three processors never reach a panic, emit at most one record per frame, and emit it only if the frame itself contains the flat, offset-defined header chain of Spec/Frame.lean (version 4, IHL/lengths consistent, well-delimited options, unfragmented; ARP 1/0x0800/6/4) with every record field read from that frame. Tied to the code by histories of structurally generated and malformed frames through the real ScanMethod.ProcessPacketData.",
         "level_note": "Trusted: Lean kernel; the gopacket decoder model is validated differentially (1.5k histories quick / 25k thorough), not proved.",
     },
+    "C10": {
+        "modules": ["SxVerif.Props.C10"],
+        "components": ["httpprobe"],
+        "trusted_base": [
+            "modelled, not verified: net/http client + transport (connection errors, header/body stalls, redirects, 204/304 bodies), crypto/tls, encoding/json (Decoder.Decode reads one value, null into map/struct is a no-op, one byte of look-ahead after literals and numbers, Token at end of body, Unmarshal of a whole body) and the moby client (Ping HEAD->GET fallback, API-version negotiation, checkResponseErr, ensureReaderClosed, ServerVersion) behind the outcome abstraction of Model/HttpProbe.lean: per request an exchange = chain of hops (refused | protocol mismatch | close | RST | non-HTTP bytes | stalled / partial headers | response(status, delay, body class, id, ending)), body class in {object, {}, object+ws, object+trailing data, ill-typed object, null, null+tail, array, scalar, truncated, garbage, empty}, ending in {eof, stall, endless}",
+            "call structure, deadlines, record literals, URLs and HTTP client settings of elastic.go / docker.go regenerated by sxfacts (Generated/HttpProbe.lean) and compared with Model/HttpProbe.Assumed by Props/C10.C10_wiring",
+            "JSON parsing is not re-proved: the body classifier is validated against encoding/json by serving several textual variants of every class",
+        ],
+        "assumptions": [
+            "deadline hypothesis (h_deadline of C10_*_time_partial): context / net/http / TLS / kernel end a request at most eps after its context deadline; the timed model makes it concrete as 'a stalled step ends exactly at the deadline'; measured on every run with slack 300 ms",
+            "Spec readings (judgements): 'a body that parses as a JSON object' = the WHOLE body is one JSON text whose value is an object (null, trailing data after the object and a body that never ends are not); elastic: status code not part of the statement; docker: 'API call succeeded' = status 200..399 and the object fits the Info schema; 'it answered' = the probed target's own answer, not that of an endpoint it redirects to; the secondary value shown is absent or an object the target itself sent",
+            "docker: one deadline per probe (as the code and DESIGN.md say), the negotiation ping comes out of the same budget",
+        ],
+        "level_text": "Lean theorems C10_elastic / C10_docker (the Spec predicate - decision, record fields, duration bound - holds of the model for every endpoint behaviour on every request, every status, delay, timeout and redirect chain), C10_*_reported_iff, C10_*_record (scheme, host:port, info are the target's; secondary value never another endpoint's), C10_*_secondary_irrelevant, C10_*_redirect_irrelevant, C10_*_time_partial (duration bound for ANY client behaviour under the explicit deadline hypothesis) and C10_wiring over facts regenerated from elastic.go / docker.go on every run. Tied to the code by running the real elastic.Scanner / docker.Scanner against scripted loopback HTTP and HTTPS endpoints (body classes x endings x statuses x connection failures x delays x redirects), durations measured.",
+        "level_note": "Trusted: Lean kernel; net/http, TLS, encoding/json and the moby client are modelled behind the outcome abstraction and validated differentially (1.1k cases quick / 7.5k thorough), not proved; the time bound is a theorem of the timed model / of any client meeting the deadline hypothesis.",
+    },
     "C18": {
         "modules": ["SxVerif.Props.C18"],
         "components": ["parse"],
